@@ -230,7 +230,7 @@ CHECKS = {
 
 NOT_APPLICABLE = {
     "C07": "quantifies over process runs (map-iteration seed, goroutine timing, clock); not values an SMT encoding can quantify over, and the pipelines involved (basm, bondgo, neuralbond) are not encodable; the literal-ambiguity instance is decided under C08",
-    "C12": "termination under every interleaving of the compiler's goroutines plus a 6 kLoC go/ast compiler: concurrency and whole-program runs are outside solver-based checking of this code",
+    "C12": "termination under every interleaving of the compiler's goroutines plus a 6 kLoC go/ast compiler: concurrency and whole-program runs are outside solver-based checking of this code. The translation-validation route used for C05/C06 (run the front-end natively, decide the emitted machine against a reference for all inputs) was tried: the compiler keeps variables in RAM (r2m/m2r), which the Go simulator does not implement (r2m is a TODO, m2r a placeholder), so compiled programs cannot be executed by the simulator the other checks encode; the hardware route (bounded model checking of processor+ROM+RAM Verilog) was not built. The shutdown race the property names was met natively while driving the compiler (DESIGN.md R6)",
     "C17": "a count of live goroutines after whole simulations: no symbolic data and no function to encode",
     "C18": "syntactic/static well-formedness of generated text per concrete configuration: nothing for a solver to quantify; elaboration failures met while encoding HDL are reported under the checks that meet them",
 }
